@@ -33,7 +33,9 @@ from .common import Ctx, Outcome, Violation
 NAME = "p"
 BASE_PATH = {1: "", 2: "/", 3: "/api", 4: "/api/", 5: "/api/v1", 6: "/srv", 7: "/api/v1/"}
 URL_TMPL = {1: "/x/{p}", 2: "/x/{p}/y", 3: "/{p}"}
-MEDIA = {"json": "application/json", "form": "application/x-www-form-urlencoded", "text": "text/plain"}
+MEDIA = {"json": "application/json", "form": "application/x-www-form-urlencoded", "text": "text/plain",
+         "multipart": "multipart/form-data", "multipart-file": "multipart/form-data"}
+BODY_PATH = {"multipart-file": "/bodyf"}
 CONF_HEADERS = {"X-Conf": "v 1;q=a"}
 TRANSPORTS = ("requests", "wsgi", "asgi")
 ASPECTS = ("url", "param", "extra", "hdrs", "conf", "id", "host", "method", "ctype", "body")
@@ -122,6 +124,10 @@ def build_doc(dialect: str) -> dict:
     paths["/body"] = {"post": {"requestBody": {"required": True, "content": {
         MEDIA["json"]: {"schema": {}}, MEDIA["form"]: {"schema": {"type": "object"}}, MEDIA["text"]: {"schema": {"type": "string"}}}},
         "responses": OK_RESP}}
+    for path, a_schema in (("/body", {"type": "string"}), ("/bodyf", {"type": "string", "format": "binary"})):
+        content = paths.setdefault(path, {"post": {"requestBody": {"required": True, "content": {}}, "responses": OK_RESP}})
+        content["post"]["requestBody"]["content"][MEDIA["multipart"]] = {
+            "schema": {"type": "object", "properties": {"a": a_schema, "b": {"type": "string"}}}}
     return {"openapi": "3.0.2", "info": {"title": "t", "version": "1"}, "paths": paths}
 
 
@@ -201,11 +207,11 @@ def get_operation(el: dict, transport: str):
         return get_schema(d["dialect"], el["base"], transport)[op_path(d)]["GET"]
     if el["kind"] == "url":
         return get_schema("oas3", el["base"], transport)[URL_TMPL[el["tmpl"]]]["GET"]
-    return get_schema("oas3", el["base"], transport)["/body"]["POST"]
+    return get_schema("oas3", el["base"], transport)[BODY_PATH.get(el["media"], "/body")]["POST"]
 
 
 def template_of(el: dict) -> str:
-    return op_path(el["def"]) if el["kind"] == "param" else URL_TMPL[el["tmpl"]] if el["kind"] == "url" else "/body"
+    return op_path(el["def"]) if el["kind"] == "param" else URL_TMPL[el["tmpl"]] if el["kind"] == "url" else BODY_PATH.get(el["media"], "/body")
 
 
 CONTAINER = {"path": "path_parameters", "query": "query", "header": "headers", "cookie": "cookies"}
@@ -282,7 +288,7 @@ def send(el: dict, kwargs: dict, transport: str, pipe: str) -> dict:
     loc = d["loc"] if el["kind"] != "body" else "none"
     o: dict = {"kind": el["kind"], "def": d, "val": el["val"], "media": el["media"], "explicit": pipe == "X",
                "wantMethod": op.method.upper(), "basePath": cps(BASE_PATH[el["base"]]), "tmpl": cps(template_of(el)),
-               "wantCtype": (case.media_type or "") if el["kind"] == "body" else ""}
+               "wantCtype": cps((case.media_type or "") if el["kind"] == "body" else "")}
     try:
         if transport == "requests":
             srv = _server()
@@ -318,7 +324,7 @@ def send(el: dict, kwargs: dict, transport: str, pipe: str) -> dict:
     o["hval"] = cps(hd.get(NAME, "")) if loc == "header" else []
     o["cpresent"] = "cookie" in hd
     o["cookie"] = cps(hd.get("cookie", ""))
-    o["ctype"] = hd.get("content-type", "")
+    o["ctype"] = cps(hd.get("content-type", ""))
     o["conf"] = [{"name": k.lower(), "want": cps(v), "present": k.lower() in hd, "got": cps(hd.get(k.lower(), ""))}
                  for k, v in (conf or {}).items()]
     got_id = hd.get("x-schemathesis-testcaseid", "")
@@ -762,6 +768,10 @@ def same_typed(a, b) -> bool:
     return a[1] == b[1]
 
 
+def media_type_of(ct: list[int]) -> list[int]:
+    return cps(text(ct).split(";", 1)[0].strip(" \t").translate({c: c + 32 for c in range(65, 91)}))
+
+
 STANDARD = {"host", "user-agent", "accept", "accept-encoding", "connection", "content-length", "content-type", "transfer-encoding"}
 
 
@@ -792,7 +802,10 @@ def py_judge(o: dict, fragment: str, want: dict) -> dict:
     conf = "T" if all(c["present"] and c["got"] == c["want"] for c in o["conf"]) else "F"
     media = o["media"]
     bt = txt(o["body"], "dec")
-    if media == "none":
+    multipart = media in ("multipart", "multipart-file")
+    if multipart:
+        body = "U"
+    elif media == "none":
         body = "T" if not o["body"] else "F"
     elif media == "json":
         j = typed_json(bt) if bt is not None else None
@@ -810,7 +823,7 @@ def py_judge(o: dict, fragment: str, want: dict) -> dict:
             "id": "T" if o["gotId"] == o["wantId"] and o["wantId"] else "F",
             "host": "T" if o["gotHost"] == o["wantHost"] else "F",
             "method": "T" if o["method"] == o["wantMethod"] else "F",
-            "ctype": "T" if o["ctype"] == o["wantCtype"] else "F", "body": body}
+            "ctype": "T" if (media_type_of(o["ctype"]) if multipart else o["ctype"]) == o["wantCtype"] else "F", "body": body}
 
 
 # ---------------------------------------------------------------------------------------------------------------------
@@ -1017,7 +1030,8 @@ def run(ctx: Ctx) -> Outcome:
         elif el["kind"] != "body":
             judged_param += 1
         if v["body"] == "U":
-            skipped["form-body-bool-null"] = skipped.get("form-body-bool-null", 0) + 1
+            why = "multipart-body-encoding" if el["media"].startswith("multipart") else "form-body-bool-null"
+            skipped[why] = skipped.get(why, 0) + 1
         if value_features(el["val"]):
             nontrivial += 1
         for a in ASPECTS:
@@ -1158,7 +1172,9 @@ def _realgen(item) -> tuple:
 
 
 def realgen_crosscheck(ctx: Ctx, rng, cases, results) -> int:
-    pool = [ci for ci, c in enumerate(cases) if c["kind"] == "param" and c["def"]["dialect"] == "oas3"]
+    # (an empty string path value is excluded: the generator's own schema says minLength 1 for path strings, so it is never drawn)
+    pool = [ci for ci, c in enumerate(cases) if c["kind"] == "param" and c["def"]["dialect"] == "oas3"
+            and not (c["def"]["loc"] == "path" and value_py(c["val"]) == "")]
     picks = common.sample(rng, pool, 160 if ctx.quick else 1600)
     items = []
     for ci in picks:
@@ -1204,7 +1220,7 @@ def selftest(ctx: Ctx) -> bool:
     good = {"kind": "param", "def": d, "val": val, "media": "none", "explicit": False, "method": "GET", "wantMethod": "GET",
             "basePath": cps("/api"), "tmpl": cps("/d1"), "path": cps("/api/d1"), "pmode": "pct", "query": cps("p=a+b%2Ctrue"),
             "hnames": ["host", "user-agent", "x-schemathesis-testcaseid"], "hpresent": False, "hval": [], "cpresent": False, "cookie": [],
-            "ctype": "", "wantCtype": "", "body": [], "conf": [], "gotId": "ID", "wantId": "ID", "gotHost": "h", "wantHost": "h"}
+            "ctype": [], "wantCtype": [], "body": [], "conf": [], "gotId": "ID", "wantId": "ID", "gotHost": "h", "wantHost": "h"}
     obs = [good,
            dict(good, query=cps("p=a+b%2CTrue")),         # python-style boolean
            dict(good, query=cps("p=a+b&p=true")),         # exploded although explode=false
@@ -1212,15 +1228,25 @@ def selftest(ctx: Ctx) -> bool:
            dict(good, hnames=good["hnames"] + ["x-extra"]),
            dict(good, query=cps("p=a%2Bb%2Ctrue")),       # '+' sent instead of the space
            dict(good, method="POST")]
+    # multipart: only the media type of the Content-Type is judged (boundary parameter ignored), the body never
+    nodef = {"dialect": "oas3", "loc": "none", "style": "default", "explode": "default", "type": "prim"}
+    form = {"k": "obj", "items": [{"t": "str", "s": cps("a b"), "n": 0}], "keys": [cps("a")]}
+    mp = dict(good, kind="body", media="multipart", val=form, method="POST", wantMethod="POST", tmpl=cps("/body"), path=cps("/api/body"),
+              query=[], body=list(b"--x--"), wantCtype=cps("multipart/form-data"), ctype=cps("Multipart/Form-Data; boundary=x"))
+    mp["def"] = nodef
+    obs += [mp, dict(mp, ctype=cps("application/x-www-form-urlencoded")), dict(mp, ctype=[])]
     verdicts, _, _ = judge(ctx, obs, "selftest.json")
     got = [[a for a in ASPECTS if v[a].startswith("F")] for v in verdicts]
-    want = [[], ["param"], ["param"], ["url"], ["hdrs"], ["param"], ["method"]]
+    want = [[], ["param"], ["param"], ["url"], ["hdrs"], ["param"], ["method"], [], ["ctype"], ["ctype"]]
     if got != want:
         print("selftest: judge verdicts", got, "expected", want)
         return False
     frag = "T"
     wantrec = {"k": "arr", "items": [cps("a b"), cps("true")], "keys": []}
     for o, v in zip(obs, verdicts):
+        if o["kind"] == "body" and v["body"] != "U":
+            print("selftest: multipart body judged", v)
+            return False
         pj = py_judge(o, frag, wantrec)
         if any(pj[a] != v[a] for a in ASPECTS):
             print("selftest: cross-check differs", pj, v)
